@@ -916,3 +916,157 @@ Example reenable_duplicate_witness :
   cur_disabled false 49200 (combine ops (snd (run_ops dinit ops))) false = false /\
   mem 49200 (d_slots (fst (run_ops dinit ops))) = true.
 Proof. vm_compute. split; reflexivity. Qed.
+
+(* ================================================================== (D)TLS <= 1.2: ECDHE curve *)
+Lemma land_lor_absorb : forall a b, N.land a (N.lor b a) = a.
+Proof. intros. apply N.bits_inj. intro n. rewrite N.land_spec, N.lor_spec. destruct (N.testbit a n), (N.testbit b n); reflexivity. Qed.
+Lemma land_lor_absorb_l : forall a b, N.land a (N.lor a b) = a.
+Proof. intros. rewrite N.lor_comm. apply land_lor_absorb. Qed.
+
+(* table fact: no curve flag overlaps the IS_RECVD_EXT marker *)
+Lemma curve_flags_disjoint : forallb (fun p => N.land (snd p) c_IS_RECVD_EXT =? 0) c_curve_flags = true.
+Proof. vm_compute. reflexivity. Qed.
+Lemma assoc_In : forall k t, assoc k t <> 0 -> In (k, assoc k t) t.
+Proof.
+  induction t as [|[a b] t IH]; cbn [assoc]; intros H; [congruence|]. destruct (N.eqb_spec a k); [subst; left; reflexivity | right; auto].
+Qed.
+Lemma curve_flag_disjoint : forall g, N.land (curve_flag g) c_IS_RECVD_EXT = 0.
+Proof.
+  intros g. destruct (N.eq_dec (curve_flag g) 0) as [E|E]; [rewrite E; reflexivity|].
+  pose proof curve_flags_disjoint as P. rewrite forallb_forall in P. specialize (P _ (assoc_In _ _ E)). apply N.eqb_eq in P. exact P.
+Qed.
+
+Lemma groups_loop_marked : forall cfg l acc cid, N.land acc c_IS_RECVD_EXT = c_IS_RECVD_EXT -> acc <> c_IS_RECVD_EXT ->
+  snd (groups_loop cfg l acc cid) = cid /\ fst (groups_loop cfg l acc cid) <> c_IS_RECVD_EXT /\
+  N.land (fst (groups_loop cfg l acc cid)) c_IS_RECVD_EXT = c_IS_RECVD_EXT.
+Proof.
+  induction l as [|g l IH]; intros acc cid Hs Hne; cbn [groups_loop]; [cbn; auto|].
+  destruct (curve_enabled g cfg); [|apply IH; auto].
+  destruct (N.eqb_spec acc c_IS_RECVD_EXT); [contradiction|]. apply IH.
+  - rewrite N.land_lor_distr_l, Hs, curve_flag_disjoint. apply N.lor_0_r.
+  - intro E. apply Hne. rewrite <- (land_lor_absorb_l acc (curve_flag g)), E. exact Hs.
+Qed.
+
+Theorem parse_groups_first : forall cfg l,
+  snd (parse_supported_groups cfg l) = match first_enabled_in cfg l with Some g => g | None => 0 end /\
+  has (fst (parse_supported_groups cfg l)) c_IS_RECVD_EXT = true.
+Proof.
+  intros cfg l. unfold parse_supported_groups, first_enabled_in.
+  assert (R : N.land c_IS_RECVD_EXT c_IS_RECVD_EXT = c_IS_RECVD_EXT) by apply N.land_diag.
+  assert (Hh : forall x, N.land x c_IS_RECVD_EXT = c_IS_RECVD_EXT -> has x c_IS_RECVD_EXT = true).
+  { intros x E. unfold has. rewrite E. reflexivity. }
+  induction l as [|g l IH]; cbn [groups_loop find]; [split; [reflexivity | apply Hh; exact R]|].
+  destruct (curve_enabled g cfg) eqn:En; [|exact IH].
+  rewrite N.eqb_refl.
+  assert (Hne : N.lor c_IS_RECVD_EXT (curve_flag g) <> c_IS_RECVD_EXT).
+  { intro E. unfold curve_enabled in En. apply andb_true_iff in En. destruct En as [En _]. apply negb_true_iff in En. apply N.eqb_neq in En.
+    apply En. rewrite <- (land_lor_absorb (curve_flag g) c_IS_RECVD_EXT), E. apply curve_flag_disjoint. }
+  assert (Hs : N.land (N.lor c_IS_RECVD_EXT (curve_flag g)) c_IS_RECVD_EXT = c_IS_RECVD_EXT).
+  { rewrite N.land_lor_distr_l, R, curve_flag_disjoint. apply N.lor_0_r. }
+  destruct (groups_loop_marked cfg l _ g Hs Hne) as [A [_ C]]. split; [exact A | apply Hh; exact C].
+Qed.
+
+Lemma curve_enabled_nonzero : forall g f, curve_enabled g f = true -> g <> 0.
+Proof. intros g f H E. subst. vm_compute in H. discriminate. Qed.
+
+(* server: the ECDHE curve is listed by the client (when it sent the extension), enabled for this session and compiled in;
+   a ClientHello whose list has nothing in common with the session's set is refused *)
+Theorem server_curve_ok : forall cfg groups c,
+  (let '(fl, cid) := ec_after_hello cfg groups in server_ecdhe_curve fl cid) = Ok c -> curve_ok cfg groups c.
+Proof.
+  intros cfg groups c H. unfold curve_ok. destruct groups as [l|]; cbn [ec_after_hello] in H.
+  - destruct (parse_supported_groups cfg l) as [fl cid] eqn:P.
+    destruct (parse_groups_first cfg l) as [A B]. rewrite P in A, B. cbn [fst snd] in A, B.
+    unfold server_ecdhe_curve in H. rewrite B in H. rewrite andb_true_r in H.
+    destruct (N.eqb_spec cid 0) as [Z|Z]; [discriminate|]. destruct (N.eqb_spec cid 0); [contradiction|].
+    destruct (mem cid c_ecc_curve_ids) eqn:M; [|discriminate]. inversion H; subst c.
+    unfold first_enabled_in in A. destruct (find (fun g => curve_enabled g cfg) l) eqn:F; [|congruence]. subst cid.
+    apply find_some in F. destruct F as [F1 F2]. repeat split; auto. apply mem_In; exact M.
+  - unfold server_ecdhe_curve in H. cbn [N.eqb andb] in H.
+    destruct (has cfg c_IS_RECVD_EXT); [discriminate|]. unfold first_enabled_curve in H.
+    destruct (find (fun id => curve_enabled id cfg) c_ecc_curve_ids) as [c0|] eqn:F; [|discriminate].
+    apply find_some in F. destruct F as [F1 F2]. destruct (N.eqb_spec c0 0); [discriminate|].
+    destruct (mem c0 c_ecc_curve_ids); [|discriminate]. inversion H; subst. repeat split; auto.
+Qed.
+Theorem server_curve_disjoint_refused : forall cfg l,
+  (forall g, In g l -> curve_enabled g cfg = false) ->
+  (let '(fl, cid) := ec_after_hello cfg (Some l) in server_ecdhe_curve fl cid) = Err c_SSL_ALERT_HANDSHAKE_FAILURE.
+Proof.
+  intros cfg l H. cbn [ec_after_hello]. destruct (parse_supported_groups cfg l) as [fl cid] eqn:P.
+  destruct (parse_groups_first cfg l) as [A B]. rewrite P in A, B. cbn [fst snd] in A, B.
+  unfold first_enabled_in in A. destruct (find (fun g => curve_enabled g cfg) l) eqn:F.
+  - apply find_some in F. destruct F as [F1 F2]. rewrite (H _ F1) in F2. discriminate.
+  - subst cid. unfold server_ecdhe_curve. rewrite B. reflexivity.
+Qed.
+
+(* client: an accepted ServerKeyExchange names a curve the ClientHello listed, and (TLS 1.2) an algorithm we sent *)
+Theorem client_ske_ok : forall q k, client_ske q k = Ok tt ->
+  client_offered_group q (k_curve k) = true /\ k_sig_ok k = true /\
+  (ngtd (q_active q) (N.lor c_v_tls_1_2 (N.lor c_v_dtls_1_2 c_v_tls_1_3_any)) = true -> exists a, k_alg k = Some a /\ In a (q_sigalgs q)).
+Proof.
+  intros q k H. unfold client_ske in H.
+  destruct (negb (k_curve_type k =? 3)); [discriminate|]. destruct (negb (mem (k_curve k) c_ecdhe_groups)); [discriminate|].
+  destruct (client_offered_group q (k_curve k)); [|discriminate]. cbn [negb] in H.
+  destruct (negb (k_curve k =? c_namedgroup_x25519) && negb (mem (k_curve k) c_ecc_curve_ids)); [discriminate|].
+  destruct (negb (k_point_ok k)); [destruct (k_curve k =? c_namedgroup_x25519); discriminate|].
+  unfold tls_verify_alg in H. split; [reflexivity|].
+  unfold ngtd. destruct (has (q_active q) (N.lor c_v_tls_1_2 (N.lor c_v_dtls_1_2 c_v_tls_1_3_any)) && has (q_active q) c_v_tls_negotiated) eqn:V.
+  - destruct (k_alg k) as [a|]; [|discriminate]. destruct (mem a (q_sigalgs q)) eqn:M; [|discriminate]. cbn [negb] in H.
+    destruct (tls_sigalg_hashlen a =? 0); [discriminate|].
+    destruct (negb (q_rsa_suite q || mem a c_tls_rsa_sigalgs) && q_rsa_suite q); [discriminate|].
+    destruct ((q_rsa_suite q || mem a c_tls_rsa_sigalgs) && q_dsa_suite q); [discriminate|].
+    destruct (k_sig_ok k); [|discriminate]. split; [reflexivity|]. intros _. exists a. split; [reflexivity | apply mem_In; exact M].
+  - destruct (negb (q_rsa_suite q) && q_rsa_suite q); [discriminate|]. destruct (q_rsa_suite q && q_dsa_suite q); [discriminate|].
+    destruct (k_sig_ok k); [|discriminate]. split; [reflexivity | discriminate].
+Qed.
+
+(* ================================================================== (D)TLS 1.2: SignatureAndHashAlgorithm *)
+(* the signer's choice is one the peer listed, or - last resort - the algorithm its certificate is signed with (which
+   validateKeyForExtensions / parseCertificateRequest have matched against the peer's list beforehand) *)
+Theorem choose_sigalg_sound : forall cert keyalg keysize mask a,
+  choose_sigalg_int cert keyalg keysize mask = Some a -> peer_supports (Some a) mask = true \/ a = cert.
+Proof.
+  intros cert keyalg keysize mask a H. unfold choose_sigalg_int in H.
+  set (a0 := if keyalg =? c_OID_RSA_KEY_ALG then if is_ecdsa_oid cert then ecdsa_to_rsa cert else cert
+             else if keyalg =? c_OID_ECDSA_KEY_ALG then if is_ecdsa_oid cert then cert else rsa_to_ecdsa cert else cert) in *.
+  destruct (assoc a0 c_oid_hashlen =? 0); [discriminate|].
+  destruct (insecure_sigalg a0 keyalg keysize (assoc a0 c_oid_hashlen) || negb (can_use (Some a0) keyalg mask)) eqn:C.
+  - destruct (can_use (upgrade_sigalg (Some a0) keyalg) keyalg mask) eqn:U1.
+    + rewrite H in U1. unfold can_use in U1. apply andb_true_iff in U1. left; tauto.
+    + destruct (can_use (upgrade_sigalg (upgrade_sigalg (Some a0) keyalg) keyalg) keyalg mask) eqn:U2.
+      * rewrite H in U2. unfold can_use in U2. apply andb_true_iff in U2. left; tauto.
+      * inversion H. right; reflexivity.
+  - apply orb_false_iff in C. destruct C as [_ C]. apply negb_false_iff in C. inversion H; subst a. unfold can_use in C. apply andb_true_iff in C. left; tauto.
+Qed.
+
+(* the verifier of a CertificateVerify accepts only an algorithm whose class was both listed by the peer and is on our list *)
+Lemma parse_sigalgs_shared : forall supported l shared peer m,
+  N.land (fst (parse_sigalgs supported l shared peer)) m <> 0 ->
+  N.land shared m <> 0 \/ exists a, In a l /\ In a supported /\ N.land (hash_sig_mask a) m <> 0.
+Proof.
+  induction l as [|a l IH]; intros shared peer m H; cbn [parse_sigalgs] in H; [left; exact H|].
+  destruct (IH _ _ _ H) as [S|[a' [I1 [I2 I3]]]].
+  - destruct (mem a supported) eqn:M; [|left; exact S].
+    rewrite N.land_lor_distr_l in S. destruct (N.eq_dec (N.land shared m) 0) as [Z|Z]; [|left; exact Z].
+    right. exists a. split; [left; reflexivity|]. split; [apply mem_In; exact M|]. rewrite Z, N.lor_0_l in S. exact S.
+  - right. exists a'. split; [right; exact I1 | split; assumption].
+Qed.
+Theorem server_cv_alg_ok : forall supported l alg,
+  server_cv_alg (fst (parse_sigalgs supported l 0 0)) alg = Ok tt ->
+  exists a, In a l /\ In a supported /\ N.land (hash_sig_mask a) (hash_sig_mask alg) <> 0.
+Proof.
+  intros supported l alg H. unfold server_cv_alg in H.
+  destruct (N.eqb_spec (N.land (fst (parse_sigalgs supported l 0 0)) (hash_sig_mask alg)) 0) as [Z|Z]; [discriminate|].
+  destruct (parse_sigalgs_shared _ _ _ _ _ Z) as [S|S]; [rewrite N.land_0_l in S; congruence | exact S].
+Qed.
+
+Example disjoint_curves_ex : (* client {P-384}, server {P-256}: refused *)
+  server_group 4 (Some [24]) 49199 = Err c_SSL_ALERT_HANDSHAKE_FAILURE.
+Proof. vm_compute. reflexivity. Qed.
+Example default_curve_ex : (* no extension, server enabled only P-384: P-384, not the library default P-256 *)
+  server_group 8 None 49199 = Ok (Some 24).
+Proof. vm_compute. reflexivity. Qed.
+Example ske_unoffered_curve_ex : (* legacy client that listed P-384 only is shown P-256 *)
+  client_ske {| q_tls13_hello := false; q_groups13 := []; q_ecflags := 8; q_sigalgs := [1025]; q_active := set_ngtd 16; q_rsa_suite := true; q_dsa_suite := false |}
+             {| k_curve_type := 3; k_curve := 23; k_alg := Some 1025; k_point_ok := true; k_sig_ok := true |} = Err c_SSL_ALERT_ILLEGAL_PARAMETER.
+Proof. vm_compute. reflexivity. Qed.
